@@ -10,6 +10,8 @@ CONSTANTS
   Modes = {"pruned", "convert"}
   MaxRestarts = 1
   MaxDeletes = 2
+  MaxReadFaults = 1
+  MaxAbortFaults = 1
   IntraHead = TRUE
   LazyChain = FALSE
   SimBias = FALSE
@@ -19,5 +21,5 @@ CONSTANTS
   Depth = 0
 VIEW View
 INVARIANTS TypeOK Sane NeverInsideWindow ArchivalKeepsODS AllOldPrunedAtCycleEnd
-PROPERTIES CheckpointMonotone PersistedMonotone
+PROPERTIES CheckpointMonotone PersistedMonotone FailedKept
 CHECK_DEADLOCK FALSE
